@@ -359,11 +359,19 @@ class Templates:
         out = {}
         for i, a in enumerate(call["args"]):
             if a["k"] not in ("copy", "move"):
+                e = owner.sym.show(owner.sym.operand(a))
+                if len(e) >= 2 and e.startswith('"') and e.endswith('"'):
+                    out[i + 1] = [e]
                 continue
             root = ref_root(owner.b, a)
             alts = owner.stream_alts(root) if root is not None else []
             if len(alts) == 1 and alts[0] > owner.b.arg_count:
                 out[i + 1] = owner.render(alts[0], depth + 1, None, follow)
+            else:
+                # a constant `&str` argument interpolates as that string literal
+                e = owner.sym.show(owner.sym.operand(a))
+                if len(e) >= 2 and e.startswith('"') and e.endswith('"'):
+                    out[i + 1] = [e]
         return out or None
 
     def render(self, stream, depth=0, seen=None, follow="fns", argmap=None):
@@ -387,7 +395,7 @@ class Templates:
             elif tk.kind == "interp":
                 alts = self.stream_alts(tk.src)
                 mixed = None
-                if alts and follow and depth < 6 and tk.ty and "TokenStream" in tk.ty:
+                if alts and follow and depth < 11 and tk.ty and "TokenStream" in tk.ty:
                     # one branch builds the piece here, another takes it from a helper
                     mixed = self.callee_templates_all(tk, types=False)
                 if argmap and tk.src in argmap:
@@ -414,7 +422,7 @@ class Templates:
                 else:
                     # follow="fns": helper fns / closures of the crate only; follow=True: also the
                     # ToTokens impls of crate types (everything that ends up in the output)
-                    cts = self.callee_templates_all(tk, types=(follow is True)) if follow and depth < 6 and tk.ty else None
+                    cts = self.callee_templates_all(tk, types=(follow is True)) if follow and depth < 11 and tk.ty else None
                     if cts and all(c is not self for c in cts):
                         roots = [(c, r) for c in cts for r in c.root_streams()]
                         am = self._argmap(tk, depth, follow) if len(cts) == 1 else None
